@@ -492,7 +492,7 @@ class MetadorGroup(MetadorNode):
             "expand_refs": True,
             "without_attrs": without_attrs,
         }
-        self.__wrapped__.copy(source, dst_path, **copy_kwargs)  # RAW
+        self.__wrapped__.copy(src_node.__wrapped__, dst_path, **copy_kwargs)  # RAW
         dst_node = self[dst_path]  # exists now
 
         src_meta: str = src_node.meta._base_dir
